@@ -8,6 +8,10 @@ from contracts import dark_padding as DP, frame_scan, mps_dataflow as D, mps_dat
 ID = "C25"
 LEVEL = "proof"
 REPLAY = "replay/c25.py"
+# bounded complement to the proof (pyvc/runner.py _start_native_side_check): the native falsifier also runs when all
+# obligations discharge -- floats are reals in the proofs (A1) and only the functions under contract are covered
+NATIVE_SIDE_CHECK = {"quick": False, "thorough": True}
+
 
 
 def extra_checks(tier, seed, repo_root):
